@@ -68,7 +68,55 @@ def instance_keeps_order(ctx):
                   "the instance's %s do not keep the configured order: %s" % (local, why))
 
 
+def instance_action_args(ctx):
+    """The arguments an action of a per-cgroup instance is initialised with: the template action's configured arguments, plus the
+    instance cgroup as 'cgroup' ONLY where the configuration gives none (a non-overwriting insert after the configured arguments are
+    in place).  An action that names its own cgroup patterns keeps them - its victims are matched by what was configured.  Shared by
+    C01 (kill containment) and C11."""
+    P = ctx.prog
+    rg = ctx.fn1("Oomd::Engine::Ruleset::registerRunnableRulesetForCgroupPath")
+    ctx.use(rg)
+    X = Expander(P, rg)
+    cgp = [p_["name"] for p_ in rg.params if "CgroupPath" in p_["type"]]
+    if len(cgp) != 1:
+        ctx.broken("instance-cgroup-parameter", "anchor", rg.loc(), "registerRunnableRulesetForCgroupPath has no single CgroupPath parameter")
+        return
+    cgn = cgp[0]
+    inits = rg.calls("BasePlugin::init", "BasePlugin::initPlugin")
+    te = [i for i in rg.calls("try_emplace", "emplace", "insert") if rg.text(rg.nodes[i].get("recv", -1)) == "args"]
+    ev = {i: [("set", "cgroup-default")] for i in te}
+    REFUSED = re.compile(r"^\((0 == .*->init(Plugin)?\(args, .*\)|.*->init(Plugin)?\(args, .*\) == 0)\)$")
+    fg = Flow(P, rg, events=ev, cg=ctx.cg, edge_tokens=lambda k, p: ["default-refused"] if (REFUSED.match(k) and p is False) else None)
+    ctx.counters["instance_action_inits"] = len(inits)
+    ctx.floor("instance_action_inits", 1, "init of the instance's actions")
+    for i in inits:
+        a = [X(x) for x in rg.nodes[i]["args"]]
+        with_default = rg.text(rg.nodes[i]["args"][0]) == "args" and fg.must(i, "cgroup-default")
+        ctx.check(with_default or fg.must(i, "default-refused"), "actions-default-to-instance-cgroup", "must_precede", rg.loc(i),
+                  "an action is initialised with the instance cgroup as default 'cgroup' argument; only an action that refused that argument set is "
+                  "initialised with its configured arguments alone",
+                  "actions of the instance are initialised without the instance cgroup as default target")
+        ctx.check("getPluginArgs()" in a[0] or a[0].startswith("var:args") or "args" in rg.text(rg.nodes[i]["args"][0]), "actions-keep-their-args", "provenance", rg.loc(i),
+                  "actions are initialised with the template action's arguments", "init receives " + a[0][:80])
+    for i in te:
+        a = [rg.text(x) for x in rg.nodes[i]["args"]]
+        ctx.check('"cgroup"' in a[0] and (cgn + ".relativePath()") in a[1] and rg.nodes[i]["cname"] == "try_emplace",
+                  "cgroup-default-does-not-override", "value-shape", rg.loc(i),
+                  "try_emplace(\"cgroup\", instance path): an explicit 'cgroup' argument wins", "default inserted by %s(%s)" % (rg.nodes[i]["cname"], ", ".join(a)[:80]))
+    # the map starts as the configured arguments (so that the default can only fill a gap)
+    for d_ in rg.all("decl"):
+        for v_ in rg.nodes[d_].get("vars", []):
+            if v_["name"] == "args" and rg.pos_of(d_) is not None:
+                t_ = X(v_["init"]) if v_.get("init") is not None and v_.get("init", -1) >= 0 else ""
+                ctx.check("getPluginArgs()" in t_ and '"cgroup"' not in t_, "instance-args-start-from-configured", "provenance", rg.loc(d_),
+                          "the argument map starts as the template action's configured arguments",
+                          "the argument map of an instance action starts as %s: the instance default is in place before the configured arguments, so a configured "
+                          "'cgroup' no longer wins and the action acts on the instance's cgroup instead of the cgroups it was configured with" % (t_[:90] or "an empty map"))
+
+
 def run(ctx):
+    from .C05 import invoking_ruleset_rule
+    invoking_ruleset_rule(ctx)
     # locals / parameters the rules below refer to by name (a rename makes the analysis 'broken', never a violation)
     ctx.anchor(ctx.fn1('Oomd::Engine::Ruleset::runOnce'), 'cgroup', 'visited', 'context')
     ctx.anchor(ctx.fn1('Oomd::Engine::Ruleset::registerRunnableRulesetForCgroupPath'), 'args', 'action_group', 'detector_groups')
@@ -178,6 +226,10 @@ def run(ctx):
     from .C05 import pause_field_writers
     pause_field_writers(ctx)
     # ---- drop loop
+    from ..misc import double_advance
+    da_ = double_advance(P, ctx.cg, ro)
+    ctx.check(not da_, "drop-loop-visits-every-instance", "at_most_once (iterator advance per iteration)", ro.loc(da_[0][0]) if da_ else ro.loc(),
+              "the drop loop looks at every instance (one advance per iteration)", (da_[0][1] if da_ else "") + " - an instance that should be dropped survives the tick")
     bad = erase_in_iteration(P, ro, ctx.cg)
     ctx.check(not bad, "erase-in-iteration:Ruleset::runOnce", "erase_in_iteration", ro.loc(bad[0][0]) if bad else ro.loc(),
               "dropping instances does not advance an invalidated iterator",
@@ -290,27 +342,7 @@ def run(ctx):
         ctx.check(ok, "instance-owns-fresh-plugins:" + which, "provenance", rg.loc(i),
                   "the instance receives newly created plugins / copy-constructed detector groups",
                   "the instance receives " + t[:120] + " (shared with the template or another instance)")
-    inits = rg.calls("BasePlugin::init", "BasePlugin::initPlugin")
-    te = [i for i in rg.calls("try_emplace", "emplace", "insert") if rg.text(rg.nodes[i].get("recv", -1)) == "args"]
-    ev = {i: [("set", "cgroup-default")] for i in te}
-    REFUSED = re.compile(r"^\((0 == .*->init(Plugin)?\(args, .*\)|.*->init(Plugin)?\(args, .*\) == 0)\)$")
-    fg = Flow(P, rg, events=ev, cg=ctx.cg, edge_tokens=lambda k, p: ["default-refused"] if (REFUSED.match(k) and p is False) else None)
-    ctx.counters["instance_action_inits"] = len(inits)
-    ctx.floor("instance_action_inits", 1, "init of the instance's actions")
-    for i in inits:
-        a = [X(x) for x in rg.nodes[i]["args"]]
-        with_default = rg.text(rg.nodes[i]["args"][0]) == "args" and fg.must(i, "cgroup-default")
-        ctx.check(with_default or fg.must(i, "default-refused"), "actions-default-to-instance-cgroup", "must_precede", rg.loc(i),
-                  "an action is initialised with the instance cgroup as default 'cgroup' argument; only an action that refused that argument set is "
-                  "initialised with its configured arguments alone",
-                  "actions of the instance are initialised without the instance cgroup as default target")
-        ctx.check("getPluginArgs()" in a[0] or a[0].startswith("var:args") or "args" in rg.text(rg.nodes[i]["args"][0]), "actions-keep-their-args", "provenance", rg.loc(i),
-                  "actions are initialised with the template action's arguments", "init receives " + a[0][:80])
-    for i in te:
-        a = [rg.text(x) for x in rg.nodes[i]["args"]]
-        ctx.check('"cgroup"' in a[0] and (cgn + ".relativePath()") in a[1] and rg.nodes[i]["cname"] == "try_emplace",
-                  "cgroup-default-does-not-override", "value-shape", rg.loc(i),
-                  "try_emplace(\"cgroup\", instance path): an explicit 'cgroup' argument wins", "default inserted by %s(%s)" % (rg.nodes[i]["cname"], ", ".join(a)[:80]))
+    instance_action_args(ctx)
     ins = [i for i, n in enumerate(rg.nodes) if n["k"] == "call" and n.get("op") == "=" and "recv" in n
            and "this->runnable_rulesets_[" in rg.text(n["recv"])]
     ctx.check(len(ins) == 1 and ("[%s.absolutePath()]" % cgn) in rg.text(rg.nodes[ins[0]]["recv"]), "instance-stored-under-absolute-path", "provenance",
